@@ -521,8 +521,10 @@ class RegexCompiler:
         self, body: Node, min_count: int, greedy: bool, need_advance_check: bool
     ):
         """Compile {n,} quantifier."""
-        # Emit body min_count times
+        # Emit body min_count times; every iteration starts with its
+        # captures reset
         for _ in range(min_count):
+            self._emit_capture_reset(self._find_capture_groups(body))
             self._compile_node(body)
 
         # Then emit * for the rest
@@ -537,8 +539,10 @@ class RegexCompiler:
         need_advance_check: bool,
     ):
         """Compile {n,m} quantifier."""
-        # Emit body min_count times (required)
+        # Emit body min_count times (required); every iteration starts
+        # with its captures reset
         for _ in range(min_count):
+            self._emit_capture_reset(self._find_capture_groups(body))
             self._compile_node(body)
 
         # Emit body (max_count - min_count) times (optional)
